@@ -65,11 +65,11 @@ def step (q : Q) (line : String) : Q × String :=
       else (q, "noseg")
     | none => (q, "bad-op")
   | ["purge"] => (Q.purge (q.segs.length + 1) q, "ok")
-  | ["crash", "torn", _, _, _] =>
-    -- the crash tears the flush of one more block, which was never acknowledged: what the
-    -- property demands is what a crash at that moment without the torn bytes gives
-    let q1 := q.crash
-    (q1.setMaxSegmentSize q.maxSegSize, "ok")
+  | ["crash", "torn", id, len, k] => match id.toNat?, len.toNat?, k.toNat? with
+    | some id, some len, some k =>
+      let q1 := q.crashTorn (payload id len) (min k (16 + len - 1))
+      (q1.setMaxSegmentSize q.maxSegSize, "ok")
+    | _, _, _ => (q, "bad-op")
   | ["crash"] =>
     -- a crash image taken now, restarted; the segment size limit is configuration and is set again
     let q1 := q.crash
